@@ -104,6 +104,11 @@ pub enum DocMut {
     DataNonArray { kind: u8 },
     ElemSwap { pos: usize, kind: u8 },
     Nest,
+    /// an additional occurrence of a dimension field with the given value, before or after the
+    /// original one (e.g. `"num_cols": null, "num_cols": 3`)
+    InsertDim { field: u8, val: DimVal, before: bool },
+    /// the data array split into two `data` events at position `at` (two partial messages)
+    SplitData { at: usize },
 }
 
 #[derive(Clone, Debug, PartialEq, Eq, Serialize, Deserialize)]
@@ -735,6 +740,25 @@ fn apply_muts(events: &mut Vec<Event>, muts: &[DocMut], elem: ElemTy, stats: &mu
                 nest = true;
                 stats.dm("nest");
             }
+            DocMut::InsertDim { field, val, before } => {
+                let f = field % 2;
+                if let Some(i) = find(events, f) {
+                    let e = Event { key: FIELDS[f as usize].to_string(), val: dim_val(val, data_len) };
+                    if *before { events.insert(i, e) } else { events.insert(i + 1, e) }
+                    stats.dm("dim_restated");
+                }
+            }
+            DocMut::SplitData { at } => {
+                if let Some(i) = find(events, 2) {
+                    if let Value::Array(a) = events[i].val.value() {
+                        let k = at % (a.len() + 1);
+                        let (x, y) = a.split_at(k);
+                        events[i].val = Val::Json(Value::Array(x.to_vec()));
+                        events.insert(i + 1, Event { key: "data".to_string(), val: Val::Json(Value::Array(y.to_vec())) });
+                        stats.dm("data_split");
+                    }
+                }
+            }
         }
     }
     nest
@@ -753,6 +777,8 @@ fn default_elem(elem: ElemTy) -> Value {
 /// What the stated occurrences of a dimension field allow.
 struct DimFacts {
     present: bool,
+    /// some occurrence is not a non-negative integer representable in usize (and not an integral float)
+    invalid: bool,
     /// values that are non-negative integers representable in usize
     ok: Vec<usize>,
     /// an integral float such as 5.0 was stated: either outcome is accepted, and the value it
@@ -761,23 +787,28 @@ struct DimFacts {
 }
 
 fn dim_facts(events: &[Event], key: &str) -> DimFacts {
-    let mut f = DimFacts { present: false, ok: vec![], free: vec![] };
+    let mut f = DimFacts { present: false, invalid: false, ok: vec![], free: vec![] };
     for e in events.iter().filter(|e| e.key == key) {
         f.present = true;
         let raw_is_float = matches!(&e.val, Val::Raw(s) if s.contains('.') || s.contains('e') || s.contains('E'));
         match e.val.value() {
             Value::Number(n) => {
                 if let (Some(u), false) = (n.as_u64(), raw_is_float) {
-                    if let Ok(x) = usize::try_from(u) {
-                        f.ok.push(x);
+                    match usize::try_from(u) {
+                        Ok(x) => f.ok.push(x),
+                        Err(_) => f.invalid = true,
                     }
                 } else if let Some(x) = n.as_f64() {
                     if x >= 0.0 && x.fract() == 0.0 && x < 1.8e19 {
                         f.free.push(x as usize);
+                    } else {
+                        f.invalid = true;
                     }
+                } else {
+                    f.invalid = true;
                 }
             }
-            _ => {}
+            _ => f.invalid = true,
         }
     }
     f
@@ -804,7 +835,12 @@ fn judge_c19<T: CellTy>(events: &[Event], nested: bool, d: &Delivered<T>, inject
         }
     }
     let strictly_consistent = cols.ok.iter().any(|&c| rows.ok.iter().any(|&r| datas.iter().any(|dv| consistent(c, r, dv.len()))));
-    let must_err = injected_error || nested || !cols.present || !rows.present || !data_present || !some_consistent;
+    // every occurrence of a field is deserialised when it is met, so one occurrence that does not
+    // fit its type (a null / negative / fractional / string dimension, a data array with an element
+    // of the wrong type) makes the whole document an error, whatever else it states
+    let n_data = events.iter().filter(|e| e.key == "data").count();
+    let bad_value = cols.invalid || rows.invalid || datas.len() != n_data;
+    let must_err = injected_error || nested || !cols.present || !rows.present || !data_present || !some_consistent || bad_value;
     match d {
         Delivered::Panic(p) => Err(v("panic", format!("deserialisation panicked: {}", p))),
         Delivered::Err(_) => Ok("rejected"),
@@ -813,7 +849,7 @@ fn judge_c19<T: CellTy>(events: &[Event], nested: bool, d: &Delivered<T>, inject
                 return Err(v("accepted_invalid", m));
             }
             if must_err {
-                let why = if injected_error { "a transport error was injected" } else if nested { "the array fields are not at the top level" } else if !cols.present || !rows.present || !data_present { "a field is missing" } else { "no stated combination of dimensions and data is consistent" };
+                let why = if injected_error { "a transport error was injected" } else if bad_value { "a stated value does not fit its type (dimension not a non-negative integer, or a data element of the wrong type)" } else if nested { "the array fields are not at the top level" } else if !cols.present || !rows.present || !data_present { "a field is missing" } else { "no stated combination of dimensions and data is consistent" };
                 return Err(v("accepted_inconsistent", format!("accepted as {:?} with {} cells although {}", a.size(), a.data().len(), why)));
             }
             let (c, r) = a.size();
@@ -831,7 +867,7 @@ fn judge_c19<T: CellTy>(events: &[Event], nested: bool, d: &Delivered<T>, inject
 
 fn run_typed<T: CellTy>(t: &SerdeTrace, prop: &str, stats: &mut SStats) -> Result<bool, SViol> {
     let n = t.cols * t.rows;
-    if (t.cols == 0) != (t.rows == 0) || n > 4096 {
+    if (t.cols == 0) != (t.rows == 0) || n > 40000 {
         stats.skipped += 1;
         return Ok(false);
     }
@@ -933,7 +969,21 @@ fn finish_delivery<T: CellTy>(t: &SerdeTrace, prop: &str, wire: Wire, expected: 
                 (d, i, de_name(other).to_string())
             }
         };
-        let out = judge_c19(&events, nest, &d, info.hard_fault_fired, &label)?;
+        // a generic value tree keeps one entry per key (the last one wins): what is judged is the
+        // document that was actually delivered
+        let judged: Vec<Event> = if matches!(t.de, DeKind::FromValue) {
+            let mut m: Vec<Event> = Vec::new();
+            for e in &events {
+                match m.iter_mut().find(|x| x.key == e.key) {
+                    Some(x) => x.val = e.val.clone(),
+                    None => m.push(e.clone()),
+                }
+            }
+            m
+        } else {
+            events.clone()
+        };
+        let out = judge_c19(&judged, nest, &d, info.hard_fault_fired, &label)?;
         stats.oc(out);
         return Ok(true);
     }
@@ -1014,7 +1064,7 @@ fn de_name(d: &DeKind) -> &'static str {
 /// Views (u32 only): serialise the view, expect an owned copy of it.
 fn run_view(t: &SerdeTrace, prop: &str, stats: &mut SStats) -> Result<bool, SViol> {
     let n = t.cols * t.rows;
-    if (t.cols == 0) != (t.rows == 0) || n > 4096 {
+    if (t.cols == 0) != (t.rows == 0) || n > 40000 {
         stats.skipped += 1;
         return Ok(false);
     }
@@ -1101,12 +1151,17 @@ fn gen_dimval(rng: &mut Rng) -> DimVal {
 pub fn gen_trace(rng: &mut Rng, prop: &str, thorough: bool) -> SerdeTrace {
     let max_dim = if rng.chance(1, 64) { 24 } else if thorough { 8 } else { 5 };
     let elem = *[ElemTy::U32, ElemTy::U32, ElemTy::I64, ElemTy::Str, ElemTy::OptU32, ElemTy::VecU32, ElemTy::Nested].get(rng.below(7)).unwrap();
-    let (cols, rows) = match rng.below(10) {
+    let (mut cols, mut rows) = match rng.below(10) {
         0 => (0, 0),
         1 => (1, rng.range(1, max_dim)),
         2 => (rng.range(1, max_dim), 1),
         _ => (rng.range(1, max_dim), rng.range(1, max_dim)),
     };
+    // very rarely a really large array of plain numbers (buffer-size thresholds in a (de)serialiser)
+    if elem == ElemTy::U32 && rng.chance(1, if thorough { 400 } else { 1500 }) {
+        cols = rng.range(100, 190);
+        rows = rng.range(100, 190);
+    }
     let build = rng.below(4) as u8;
     let salt = rng.below(1000) as u32;
     let mut source = Source::Owned;
@@ -1152,7 +1207,7 @@ pub fn gen_trace(rng: &mut Rng, prop: &str, thorough: bool) -> SerdeTrace {
         }
         let n_muts = if byte_muts.is_empty() { rng.range(1, 3) } else { rng.below(2) };
         for _ in 0..n_muts {
-            muts.push(match rng.below(14) {
+            muts.push(match rng.below(16) {
                 0 => DocMut::Drop { field: rng.below(3) as u8 },
                 1 => DocMut::Dup { field: rng.below(3) as u8, different: rng.chance(1, 2), at_end: rng.chance(1, 2) },
                 2 => DocMut::Reorder { rot: rng.below(6) },
@@ -1174,7 +1229,9 @@ pub fn gen_trace(rng: &mut Rng, prop: &str, thorough: bool) -> SerdeTrace {
                 10 => DocMut::DataNonArray { kind: rng.below(4) as u8 },
                 11 => DocMut::ElemSwap { pos: rng.below(64), kind: rng.below(5) as u8 },
                 12 => DocMut::Nest,
-                _ => DocMut::SetDim { field: rng.below(2) as u8, val: DimVal::Zero },
+                13 => DocMut::SetDim { field: rng.below(2) as u8, val: DimVal::Zero },
+                14 => DocMut::InsertDim { field: rng.below(2) as u8, val: gen_dimval(rng), before: rng.chance(2, 3) },
+                _ => DocMut::SplitData { at: rng.below(64) },
             });
         }
     }
